@@ -525,7 +525,9 @@ func (w *World) invoke(r *Reg, ft reflect.Type, args []reflect.Value) []reflect.
 				w.anomaly("the constructor of r%d takes its parameter object by pointer and was called with nil", r.ID)
 				st = reflect.New(st.Type().Elem())
 			}
-			inv.InPtr = st
+			if !w.HoldArgs {
+				inv.InPtr = st
+			}
 			st = st.Elem()
 		}
 		for i, d := range r.Deps {
@@ -628,7 +630,10 @@ func (w *World) invoke(r *Reg, ft reflect.Type, args []reflect.Value) []reflect.
 	}
 	if w.HoldArgs {
 		var held []any
-		if r.UseIn {
+		if r.UseIn && args[0].Kind() == reflect.Pointer {
+			// the service keeps the parameter object it was given
+			held = append(held, args[0].Interface())
+		} else if r.UseIn {
 			st := args[0]
 			for i := range r.Deps {
 				held = append(held, st.Field(i+1).Interface())
